@@ -407,4 +407,6 @@ func runC18(c *Ctx) {
 	}
 	c.Floor("C18-R4", "production users of ConcurrentQueue", users, 1)
 	checkProducersNeverDrop(c, "C18-R4")
+	checkQueueStartedOnce(c, "C18-R4")
+	checkNoQueueSendUnderClientMutex(c, "C18-R5")
 }
